@@ -12,6 +12,7 @@ CaseOK == /\ Good(Ev.s, Ev.k, Ev.r[1], Ev.r[2])
           /\ Affine(Ev.r, Ev.ra, Ev.a, Ev.b)
           /\ Good(Ev.s, Ev.k, Ev.rf[1], Ev.rf[2])                      \* the same sample as non-dyadic floats: end points are sample values, ...
           /\ \E j \in 1..Len(Ev.ric) : Good(Ev.s, Ev.k, Ev.ric[j][1], Ev.ric[j][2])   \* ... and as 64-bit integers beyond 2^53 (up to output rounding)
+          /\ Good(Ev.gs, Ev.k, Ev.rg[1], Ev.rg[2])                      \* the sample under a concave monotone map (window widths equal to 7 digits): judged as a sample of its own
           /\ Ev.unchanged
 Call == IF CaseOK THEN TRUE ELSE PrintT(<<"BAD", l>>)
 TraceNext == l <= Len(Log) /\ l' = l + 1 /\ Call
